@@ -24,7 +24,10 @@
    Extended (round-2 seeded change): every `check` row now carries the PROVENANCE of the local names
    used in the call, `{name<-binding | binding ...}` = all assignments / loop targets that bind the name
    before the call in source order, so that rebinding the object a verification receives (e.g. the
-   certificate entry given to DelegatedCredential.verify) changes the table. *)
+   certificate entry given to DelegatedCredential.verify) changes the table.
+   Re-synchronised with /repo 19b1cb2: _ticket_to_session's session.create now takes the SRP user name
+   from the ticket payload (identity flowing through TLS <= 1.2 tickets -> flow server12_resume and
+   theorem srp_user_from_ticket_only_if_ticket_and_finished). *)
 From Coq Require Import List String.
 Import ListNotations.
 Open Scope string_scope.
@@ -176,7 +179,7 @@ Definition expected_sites : list (string * string * string * string * string * s
    "self.session.create(srp=bytearray(b''), client=client_cert_chain, server=serverCertChain, delegated_credential=delegated_credential)",
    "", "-");
   ("tlsconnection.py", "TLSConnection._ticket_to_session", "create",
-   "session.create(srp='', client=ticket.client_cert_chain, server=None)",
+   "session.create(srp=ticket.srp_username.decode('utf-8') if ticket.srp_username else '', client=ticket.client_cert_chain, server=None)",
    "", "-");
   ("tlsconnection.py", "TLSConnection._serverGetClientHello", "check",
    "self._getFinished(session.masterSecret, session.cipherSuite) {session<-None | self._ticket_to_session(settings, ticket_ext) | cached | sessionCache[clientHello.session_id]}",
